@@ -54,4 +54,5 @@ FastFix(rm, F) == LET P == CongPairs(rm, F) IN IF P = {} THEN rm ELSE FastFix(Jo
 \* constant |-> a representative of its congruence class
 RepMap(U, E) == FastFix(JoinAll([u \in U |-> u], { <<e[2], e[3]>> : e \in COf(E) }), FOf(E))
 ClosureFast(U, E) == LET rm == RepMap(U, E) IN { p \in U \X U : rm[p[1]] = rm[p[2]] }
+ExplainsFast(U, X, E, s, t) == (\A x \in X : InE(x, E)) /\ LET rm == RepMap(U, X) IN rm[s] = rm[t]
 =============================================================================
